@@ -92,10 +92,10 @@ class ProgGen:
         if text and self.lines and self.r.random() < 0.03:
             # comment-only lines at any column (0, the block's indent, deeper) and trailing comments never change the program
             col = self.r.choice([0, 0, 4 * self.ind, 4 * self.ind + 4, max(0, 4 * self.ind - 4), 1])
-            self.lines.append(" " * col + self.r.choice(["# note", "#", "# TODO: tune", "#led.on()", "# while True:", "# open (bracket", "# [", "# it's", "# \"", "# x = {"]))
+            self.lines.append(" " * col + self.r.choice(["# note", "#", "# TODO: tune", "#led.on()", "# while True:", "# open (bracket", "# [", "# it's", "# \"", "# x = {", "# fixes #7", "# a # b"]))
             self.feat("comment-line")
         if text and self.r.random() < (0.03 if '"' not in text else 0.06):
-            text = text + self.r.choice(["  # trailing", " # x = 1", "  #", "  # (unclosed", " # a[0", "  # it's"])
+            text = text + self.r.choice(["  # trailing", " # x = 1", "  #", "  # (unclosed", " # a[0", "  # it's", "  # see #12", " # a # b", "  ## twice"])
             self.feat("trailing-comment")
         self.lines.append(("    " * self.ind + text) if text else "")
 
@@ -221,6 +221,11 @@ class ProgGen:
             return f"({self.e_int(d + 1)} if {self.e_bool(d + 1)} else {self.e_int(d + 1)})"
         if c == "intcast":
             self.feat("int()")
+            if self.chance(0.3):
+                # the conversion applied directly to abs/min/max of fractions (those helpers hand fractions through unchanged)
+                self.feat("int(abs|min|max of floats)")
+                form = r.choice(["abs({a})", "max({a}, {b})", "min({a}, {b})"])
+                return "int(" + form.format(a=self.e_float(d + 2), b=self.float_lit()) + ")"
             if self.chance(0.5) or not self.visible("float"):
                 return f"int({self.e_float(d + 1)})"
             return f"int({r.choice(self.visible('float')).name})"
@@ -414,7 +419,13 @@ class ProgGen:
             kind = r.choice(kinds)
             if kind == "str" and not self.visible("str"):
                 kind = "int"
-            if kind == "str":
+            if self.chance(0.12):
+                # a field that is a choice between two string literals (or a bare literal), possibly the very first component
+                self.feat("fstring-literal-choice-field")
+                ints = self.visible("int")
+                cond = f"{r.choice(ints).name} > {r.randint(0, 5)}" if ints else r.choice(["1 < 2", "3 < 2"])
+                parts.append(r.choice(["{'ON' if " + cond + " else 'OFF'}", "{'hi'}", "{'a' if " + cond + " else 'bb'}"]))
+            elif kind == "str":
                 parts.append("{" + r.choice(self.visible("str")).name + "}")
             elif kind == "bool":
                 self.feat("hz:bool-text")
@@ -485,6 +496,12 @@ class ProgGen:
         if depth < 3:
             choices += ["if"] * 3 + ["for"] * 2 + ["while"] * 2 + ["if_define"] * 2 + ["nested_if"]
         choices += ["tuple_new", "tuple_update"]
+        if depth < 3 and not (self.in_main_loop and depth > 1):
+            choices += ["reset_same_const"]
+        if depth < 2:
+            choices += ["single_pass_for"]
+        if self.use_led and self.leds and getattr(self, "led_helpers", None) and not self.in_function:
+            choices += ["led_around_call"] * 2
         if depth < 3 and not self.in_main_loop:
             choices += ["loop_reset"]
         if self.use_lists and not self.in_main_loop and not self.in_function and depth < 2:
@@ -811,6 +828,64 @@ class ProgGen:
             # (a `for` variable read after its loop is not declared in the generated C++: known finding, not generated here)
             self.declare(iv, "int", ro=True)
         self.declare(name, t)
+
+    def s_reset_same_const(self, depth):
+        """A name initialised from a literal, changed inside a nested block whose execution is only known at run time, then
+        set back to the very same literal (the reset idiom): every one of the three stores counts."""
+        self.feat("reset-to-initial-constant")
+        t = self.r.choice(["int", "int", "float", "str", "bool"])
+        name = self.fresh({"int": "i", "float": "f", "str": "s", "bool": "b"}[t])
+        k = {"int": self.int_lit(), "float": self.float_lit(), "str": self.str_lit(), "bool": self.r.choice(["True", "False"])}[t]
+        self.emit(f"{name} = {k}")
+        v = self.declare(name, t)
+        change = {"int": f"{name} = {name} + {self.r.randint(1, 9)}", "float": f"{name} = {name} + {self.float_lit()}", "str": f"{name} = {name} + {self.str_lit()}", "bool": f"{name} = not {name}"}[t]
+        form = self.r.choice(["if", "for", "while"])
+        if form == "if":
+            self.emit(f"if {self.e_bool(1)}:")
+            self.emit("    " + change)
+        elif form == "for":
+            self.emit(f"for {self.fresh('k')} in range({self.r.randint(1, 3)}):")
+            self.emit("    " + change)
+        else:
+            w = self.fresh("w")
+            self.emit(f"{w} = {self.r.randint(1, 2)}")
+            self.emit(f"while {w} > 0:")
+            self.emit(f"    {w} -= 1")
+            self.emit("    " + change)
+            self.declare(w, "int", ro=True)
+        self.observe(v)
+        self.emit(f"{name} = {k}")
+        self.observe(v)
+
+    def s_single_pass_for(self, depth):
+        """A counted loop that runs exactly once (count written as a literal, a foldable expression or a name) inside another loop,
+        left early through a conditional break: the break ends the inner loop only."""
+        self.feat("single-pass-for-with-break")
+        o, i = self.fresh("k"), self.fresh("k")
+        cnt = self.r.choice(["1", "3 - 2", 'len("x")', "1", "2 - 1"])
+        self.emit(f"for {o} in range({self.r.randint(2, 3)}):")
+        self.ind += 1
+        self.emit(f"for {i} in range({cnt}):")
+        self.ind += 1
+        self.emit(f'mon.write(f"in{{{o}}}")')
+        self.emit(f"if {o} >= {self.r.randint(0, 1)}:")
+        self.emit("    break")
+        self.emit('mon.write("tail")')
+        self.ind -= 1
+        self.emit(f'mon.write(f"after{{{o}}}")')
+        self.ind -= 1
+        self.obs += 2
+
+    def s_led_around_call(self, depth):
+        """The same LED command before and after a helper call that drives that LED: the second command is not redundant."""
+        fn, led, op = self.r.choice(self.led_helpers)
+        self.feat("led-same-command-around-helper")
+        first = self.r.choice(["on", "off"]) if op == "toggle" else ("on" if op == "off" else "off")
+        self.emit(f"{led}.{first}()")
+        self.emit(f"{fn}()")
+        self.emit(f"{led}.{first}()")
+        if self.chance(0.5):
+            self.emit(f"sleep({self.r.choice([1, 5])})")
 
     def s_len_loop(self, depth):
         """A list whose length is only known at run time, walked with `for i in range(len(xs))`; expressions on the counter
@@ -1240,6 +1315,16 @@ class ProgGen:
                     self.feat("hz:uncalled-helper")
                     continue
                 self.call_once(f)
+        self.led_helpers = []
+        if self.use_led and self.leds and self.chance(0.5):
+            led, _pin = r.choice(self.leds)
+            op = r.choice(["off", "on", "toggle"])
+            fn = self.fresh("flip")
+            self.emit(f"def {fn}():")
+            self.emit(f"    {led}.{op}()")
+            self.emit(f"    sleep({r.choice([1, 2])})")
+            self.emit("")
+            self.led_helpers.append((fn, led, op))
         for _ in range(max(2, self.size // 2 + r.randint(-2, 2))):
             self.stmt(0)
         if self.main_loop:
